@@ -57,6 +57,7 @@ func init() {
 		{"C07", "adder", props.C07adder},
 		{"C05", "adder", props.C07adder},
 		{"C17", "garble", props.C01},
+		{"C13", "hexwidth", props.HexWidthAgreement},
 		{"C17", "sharedtable", props.MemoSyncMaps("circuit", "ot", "p2p", "gmw", "compiler/ssa", "compiler/circuits", "compiler/mpa", "compiler/ast", "compiler")},
 		{"C08", "sharedtable", props.MemoSyncMaps("compiler/ssa", "compiler/circuits", "compiler/mpa", "compiler/ast", "compiler", "circuit")},
 		{"C16", "garble", props.C01},
